@@ -149,7 +149,32 @@ func propC14(t *rapid.T) {
 	{
 		base := genJSONTable(t)
 		d := hx.GenDerived(t, base, 4)
+		upper := rapid.IntRange(0, 4).Draw(t, "toupperfirst") == 0
+		if upper {
+			// string and enum columns rebuilt by the ToUpper built-in first: whatever a column carries along for the
+			// writers must follow
+			for _, c := range base.Cols {
+				if c.Kind == hx.KString || c.Kind == hx.KEnum {
+					d.QF = d.QF.Apply(qframe.Instruction{Fn: "ToUpper", DstCol: c.Name, SrcCol1: c.Name})
+				}
+			}
+			if d.QF.Err != nil {
+				t.Fatalf("ToUpper before writing: %v\n%s", d.QF.Err, d.String())
+			}
+			d.Route = append(d.Route, "ToUpper on every string/enum column")
+		}
 		in := d.Input(t)
+		if upper {
+			for i := range in.Cols {
+				if in.Cols[i].Kind == hx.KEnum && in.Cols[i].Enum != nil {
+					up := make([]string, len(in.Cols[i].Enum))
+					for j, v := range in.Cols[i].Enum {
+						up[j] = strings.ToUpper(v)
+					}
+					in.Cols[i].Enum = up
+				}
+			}
+		}
 		desc := func() string { return d.String() }
 		var buf bytes.Buffer
 		var werr error
